@@ -67,6 +67,15 @@ def cases(tier, seed):
                         for nonherm in ((False, True) if basis == "orth" else (True,)):
                             out.append(dict(solver="direct", n=n, blocks=list(blocks), deg=deg, basis=basis, dtypes=dt,
                                             nonhermitian=nonherm, seed=seed))
+    # non-Hermitian H_0 with complex explicit eigenvalues given as (R, L) pairs; the `nonhermitian` flag only adds the
+    # left-implicit solves, the right-implicit ones must be correct for either value
+    for n in ns:
+        for blocks in ((1,), (2,), (1, 1), (2, 1)):
+            for deg in ("none", "pair") if max(blocks) >= 2 else ("none",):
+                for dt in ("rc", "cc"):
+                    for nonherm in (False, True):
+                        out.append(dict(solver="direct", n=n, blocks=list(blocks), deg=deg, basis="biorth", dtypes=dt,
+                                        nonhermitian=nonherm, layout="complexE", seed=seed))
     # a degenerate explicit pair whose eigenvectors are localised on disjoint site sets of different size
     for n in ns:
         for blocks in ((2,), (2, 1), (3,), (4,)):
@@ -253,6 +262,10 @@ def make_problem(n, blocks, deg, basis, dtypes, seed, layout=None):
     elif deg == "descending":  # explicit levels not sorted by energy
         nexp_ = sum(blocks)
         E[:nexp_] = E[:nexp_][::-1].copy()
+    if layout == "complexE":
+        E = E + 1j * np.array([0.5, -1.0, 2.0, 0.25, -0.75, 1.5, -2.0, 1.0][:n])
+        if deg == "pair":
+            E[1] = E[0]
     cplx_h = dtypes[0] == "c"
     A = rng.normal(size=(n, n))
     if cplx_h:
